@@ -88,3 +88,30 @@ def find_calls(body, pattern):
     import re
     rx = re.compile(pattern)
     return [(bl, t) for bl, t in calls(body) if rx.search(callee_name(t)) or rx.search(t.get('callee') or '')]
+
+
+def split_cases(x, limit=6):
+    """Case analysis on gated terms nested anywhere inside x: [(conditions, value without that gate)]."""
+    out = [((), x)]
+    for _ in range(limit):
+        nxt = []
+        changed = False
+        for conds, v in out:
+            its = [a for a in I.atoms_deep(v).values() if a.kind == 'app' and a.name == 'ite']
+            if not its and isinstance(v, I.Ite):
+                nxt.append((conds + (v.c,), v.a))
+                nxt.append((conds + (I.b_not(v.c),), v.b))
+                changed = True
+                continue
+            if not its:
+                nxt.append((conds, v))
+                continue
+            a = its[0]
+            c, p, q = a.args
+            nxt.append((conds + (c,), I.subst(v, {a: p})))
+            nxt.append((conds + (I.b_not(c),), I.subst(v, {a: q})))
+            changed = True
+        out = nxt
+        if not changed:
+            break
+    return out
